@@ -4,7 +4,7 @@ import Srctools.Model.C13
 requests:
   {"op":"run","single":b,"ops":[op…]}   → {"obs":[result…]}      (one result per operation)
       op: ["open",mode,limit|null] ["new",name] ["add",name,data,idx|null] ["write",name,data,idx|null]
-          ["del",name] ["flush"] ["has",name] ["check"] ["plant","hex"]
+          ["del",name] ["flush"] ["exit",exc:bool] ["has",name] ["check"] ["plant","hex"]
       name: ["s",[cp…]] | ["p",[cp…],[cp…]] | ["t",[cp…],[cp…],[cp…]]
       data: ["g",seed,size] | ["x","hex"]
       result: "ok" | "yes" | "no" | error code | observation object (for "check")
@@ -108,6 +108,11 @@ def observe (w : World) : Json :=
       ("reads", Json.arr reads.toArray),
       ("verify", ver),
       ("len", num ents.length),
+      ("spell", Json.arr (ents.map fun (k, _) =>
+          let de : Str := if k.ext = [] then [] else DOT :: k.ext
+          let names := [Name.str (joinFileParts k), Name.pair k.dir (k.name ++ de), Name.triple k.dir k.name k.ext]
+          Json.arr (names.map fun nm =>
+            Json.bool (decide (getFileParts nm = k) && (v.tree.lookup (getFileParts nm)).isSome)).toArray).toArray),
       ("dirfile", match w.dirFile with | none => Json.null | some b => digest b),
       ("arch", Json.arr (archs.map fun (i, b) => Json.arr #[num i, digest b]).toArray)]
 
@@ -130,6 +135,7 @@ def runOps (single : Bool) (ops : List Json) : Except String (List Json) := do
         | "write" => do pure (Op.write (← nameOf a[1]!) (← dataOf a[2]!) (← optNat a[3]!))
         | "del" => do pure (Op.del (← nameOf a[1]!))
         | "flush" => pure Op.flush
+        | "exit" => do pure (Op.exit (← (a[1]!).getBool?))
         | "has" => do pure (Op.has (← nameOf a[1]!))
         | _ => throw s!"bad op {k}"
       let (w', r) := step crc32 w op
